@@ -274,3 +274,109 @@ Proof.
   unfold wf_seg_hdr, wf_lf_hdr, wf_q_hdr. cbn.
   repeat split; try lia; try discriminate; repeat constructor; try lia.
 Qed.
+
+(** * coefficient probability updates (13.4) and the skip probability: the whole header *)
+Fixpoint e_map2 {A B} (e : A -> B -> list (bool * Z)) (la : list A) (lb : list B) : list (bool * Z) :=
+  match la, lb with
+  | a :: ta, b :: tb => e a b ++ e_map2 e ta tb
+  | _, _ => []
+  end.
+
+Lemma rt_map_st {A B} (f : A -> bdec -> B * bdec) (e : A -> B -> list (bool * Z)) (P : A -> B -> Prop) :
+  (forall a b d rest, P a b -> sync d (e a b ++ rest) -> exists d', f a d = (b, d') /\ sync d' rest) ->
+  forall la lb d rest, Forall2 P la lb -> sync d (e_map2 e la lb ++ rest) ->
+  exists d', map_st f la d = (lb, d') /\ sync d' rest.
+Proof.
+  intros Hf la lb d rest H. revert d rest. induction H as [|a b ta tb Hab Ht IH]; intros d rest Hs; cbn [map_st e_map2] in *.
+  - exists d. split; [reflexivity|exact Hs].
+  - rewrite <- app_assoc in Hs. destruct (Hf a b d _ Hab Hs) as (d1 & E1 & S1). rewrite E1.
+    destruct (IH d1 rest S1) as (d2 & E2 & S2). rewrite E2. exists d2. split; [reflexivity|exact S2].
+Qed.
+
+(** one probability: flag coded with the update probability, then the new value if it differs *)
+Definition e_upd (uo : Z * Z) (n : Z) : list (bool * Z) :=
+  let '(up, old) := uo in if n =? old then [(false, up)] else (true, up) :: e_lit 8 n.
+
+Definition P1 (uo : Z * Z) (n : Z) : Prop := 0 <= n <= 255.
+
+Lemma rt_upd1 : forall l news d rest, Forall2 P1 l news -> sync d (e_map2 e_upd l news ++ rest) ->
+  exists d', upd_probs1 l d = (news, d') /\ sync d' rest.
+Proof.
+  intros l news d rest H. revert d rest.
+  induction H as [|[up old] n tl ntl Hn Ht IH]; intros d rest Hs; cbn [upd_probs1 e_map2] in *.
+  - exists d. split; [reflexivity|exact Hs].
+  - rewrite <- app_assoc in Hs. unfold e_upd in Hs. unfold P1 in Hn.
+    destruct (Z.eqb_spec n old) as [->|Hne].
+    + apply sync_cons in Hs. destruct Hs as (d1 & E1 & S1). rewrite E1.
+      destruct (IH d1 rest S1) as (d2 & E2 & S2). rewrite E2. exists d2. split; [reflexivity|exact S2].
+    + cbn [app] in Hs. apply sync_cons in Hs. destruct Hs as (d1 & E1 & S1). rewrite E1.
+      destruct (rt_lit 8 n d1 _ ltac:(change (2 ^ Z.of_nat 8) with 256; lia) S1) as (d2 & E2 & S2). rewrite E2.
+      destruct (IH d2 rest S2) as (d3 & E3 & S3). rewrite E3. exists d3. split; [reflexivity|exact S3].
+Qed.
+
+Definition e2 (uo : list Z * list Z) (n : list Z) := e_map2 e_upd (combine (fst uo) (snd uo)) n.
+Definition P2 (uo : list Z * list Z) (n : list Z) := Forall2 P1 (combine (fst uo) (snd uo)) n.
+Definition e3 (uo : list (list Z) * list (list Z)) (n : list (list Z)) := e_map2 e2 (combine (fst uo) (snd uo)) n.
+Definition P3 (uo : list (list Z) * list (list Z)) (n : list (list Z)) := Forall2 P2 (combine (fst uo) (snd uo)) n.
+Definition e4 (uo : list (list (list Z)) * list (list (list Z))) (n : list (list (list Z))) :=
+  e_map2 e3 (combine (fst uo) (snd uo)) n.
+Definition P4 (uo : list (list (list Z)) * list (list (list Z))) (n : list (list (list Z))) :=
+  Forall2 P3 (combine (fst uo) (snd uo)) n.
+
+Definition e_probs (news : list (list (list (list Z)))) : list (bool * Z) :=
+  e_map2 e4 (combine coeff_update_probs coeff_probs0) news.
+(** the new table has the shape of the default one and holds bytes *)
+Definition wf_probs (news : list (list (list (list Z)))) : Prop :=
+  Forall2 P4 (combine coeff_update_probs coeff_probs0) news.
+
+Theorem upd_probs_rt news d rest : wf_probs news -> sync d (e_probs news ++ rest) ->
+  exists d', upd_probs d = (news, d') /\ sync d' rest.
+Proof.
+  intros Hw Hs. unfold upd_probs.
+  apply (rt_map_st _ e4 P4); [|exact Hw|exact Hs].
+  intros [u3 o3] n3 d3 r3 H3 S3.
+  apply (rt_map_st _ e3 P3); [|exact H3|exact S3].
+  intros [u2 o2] n2 d2 r2 H2 S2.
+  apply (rt_map_st _ e2 P2); [|exact H2|exact S2].
+  intros [u1 o1] n1 d1 r1 H1 S1.
+  apply rt_upd1; [exact H1|exact S1].
+Qed.
+
+Definition e_part1_hdr (upd_seg upd_lf refresh : bool) (h : frame_hdr) : list (bool * Z) :=
+  e_fixed_hdr upd_seg upd_lf (fh_color h) (fh_clamp h) (fh_seg h) (fh_lf h) (fh_log2parts h) (fh_q h) ++
+  e_flag refresh ++ e_probs (fh_probs h) ++ e_flag (fh_skip_enabled h) ++
+  (if fh_skip_enabled h then e_lit 8 (fh_skip_prob h) else []).
+
+Definition wf_frame_hdr (abs_default upd_seg upd_lf : bool) (h : frame_hdr) : Prop :=
+  wf_seg_hdr abs_default upd_seg (fh_seg h) /\ wf_lf_hdr upd_lf (fh_lf h) /\ 0 <= fh_log2parts h < 4 /\
+  wf_q_hdr (fh_q h) /\ wf_probs (fh_probs h) /\ 0 <= fh_skip_prob h <= 255 /\
+  (fh_skip_enabled h = false -> fh_skip_prob h = 0).
+
+(** The whole first-partition header: every field the parser returns is the emitted one
+    (width, height and scales come from the uncompressed frame start, they are passed through). *)
+Theorem syntax_roundtrip abs_default upd_seg upd_lf refresh h d rest :
+  wf_frame_hdr abs_default upd_seg upd_lf h ->
+  sync d (e_part1_hdr upd_seg upd_lf refresh h ++ rest) ->
+  exists d', parse_part1_hdr abs_default (fh_w h) (fh_h h) (fh_xscale h) (fh_yscale h) d = (h, d') /\ sync d' rest.
+Proof.
+  intros (Hsg & Hlf & Hlp & Hq & Hpr & Hsk & Hsk0) H. unfold e_part1_hdr in H. rewrite <- !app_assoc in H.
+  unfold parse_part1_hdr.
+  destruct (syntax_roundtrip_fixed abs_default upd_seg upd_lf _ _ _ _ _ _ d _ Hsg Hlf Hlp Hq H) as (d1 & E1 & S1).
+  rewrite E1.
+  destruct (rt_flag _ d1 _ S1) as (d2 & E2 & S2). rewrite E2.
+  destruct (upd_probs_rt _ d2 _ Hpr S2) as (d3 & E3 & S3). rewrite E3.
+  destruct (rt_flag _ d3 _ S3) as (d4 & E4 & S4). rewrite E4.
+  destruct h as [w hh xs ys cs ct sg lf lp q pr sk skp].
+  cbn [fh_w fh_h fh_xscale fh_yscale fh_color fh_clamp fh_seg fh_lf fh_log2parts fh_q fh_probs fh_skip_enabled fh_skip_prob] in *.
+  destruct sk.
+  - destruct (rt_lit 8 skp d4 _ ltac:(change (2 ^ Z.of_nat 8) with 256; lia) S4) as (d5 & E5 & S5). rewrite E5.
+    exists d5. split; [reflexivity|exact S5].
+  - rewrite (Hsk0 eq_refl). exists d4. split; [reflexivity|]. cbn [app] in S4. exact S4.
+Qed.
+
+(** the default table is a well-formed "new" table (no update at all) *)
+Example wf_probs_default : wf_probs coeff_probs0.
+Proof.
+  unfold wf_probs, P4, P3, P2, P1.
+  repeat (constructor; cbn [fst snd combine]); lia.
+Qed.
